@@ -8,7 +8,9 @@ use hyeong::number::big_number::BigNum;
 use hyeong::number::num::Num;
 use hyeong::core::area::{calc, Area};
 use hyeong::core::code::UnOptCode;
-use hyeong::core::execute::execute_one;
+use hyeong::core::execute::{execute, execute_one};
+use hyeong::core::optimize::optimize;
+use hyeong::util::ext::num_to_unicode;
 use hyeong::core::state::{State, UnOptState};
 use hyeong::util::io::{CustomReader, CustomWriter};
 use std::cmp::Ordering;
@@ -172,6 +174,40 @@ fn run(f: &[String]) -> String {
                     }
                 }
                 out
+            }
+            "opt.cmp" => {
+                // opt.cmp \t <cmd>;<cmd>;...   runs the program unoptimised and at level 2 (as src/app/run.rs does) and
+                // prints both outputs: O0:<stdout>|<stderr> O2:<stdout>|<stderr>
+                let mut codes: Vec<UnOptCode> = Vec::new();
+                for c in f[1].split(';') {
+                    let p: Vec<&str> = c.splitn(4, ',').collect();
+                    let tt: Vec<&str> = p[3].split(' ').collect();
+                    let a = tree(&mut tt.iter());
+                    codes.push(UnOptCode::new(p[0].parse().unwrap(), p[1].parse().unwrap(), p[2].parse().unwrap(), (0, 0), a, String::new()));
+                }
+                let mut o0: Vec<u8> = Vec::new();
+                let mut e0: Vec<u8> = Vec::new();
+                {
+                    let mut ipt = CustomReader::new(String::new());
+                    let mut st = UnOptState::new();
+                    for c in codes.iter() {
+                        st = execute(&mut ipt, &mut o0, &mut e0, st, c).unwrap();
+                    }
+                }
+                let mut o2: Vec<u8> = Vec::new();
+                let mut e2: Vec<u8> = Vec::new();
+                {
+                    let mut ipt = CustomReader::new(String::new());
+                    let (mut st, rest) = optimize(codes.clone(), 2).unwrap();
+                    for n in st.get_stack(1).clone().iter() { o2.extend(num_to_unicode(n).unwrap().to_string().as_bytes()); }
+                    st.get_stack(1).clear();
+                    for n in st.get_stack(2).clone().iter() { e2.extend(num_to_unicode(n).unwrap().to_string().as_bytes()); }
+                    st.get_stack(2).clear();
+                    for c in rest.iter() {
+                        st = execute(&mut ipt, &mut o2, &mut e2, st, c).unwrap();
+                    }
+                }
+                format!("O0:{}|{} O2:{}|{}", String::from_utf8_lossy(&o0), String::from_utf8_lossy(&e0), String::from_utf8_lossy(&o2), String::from_utf8_lossy(&e2)).replace('\n', "\\n")
             }
             "num.roundtrip" => { let a = num(f[1]); let s = a.to_string(); let b = Num::from_string(s.clone()); format!("{} {}", s, (a.is_nan() && b.is_nan()) || a == b) }
             _ => "ERR unknown op".to_string(),
